@@ -249,3 +249,240 @@ Proof.
   rewrite pick_app_nofit; [rewrite EP; exact HG| |exact Htail].
   intros Hnil. rewrite Hnil in EP. discriminate.
 Qed.
+
+(* ------------------------------------------------------------------------ word lists *)
+Require Import WV.model.C09Spec.
+
+Definition words (ws : list text) : Prop := Forall (fun w => is_word w = true) ws.
+
+Lemma letters_simple t : forallb is_letter t = true -> simple t.
+Proof.
+  unfold simple. induction t as [|c t IH]; [reflexivity|].
+  cbn [forallb]. intros H. apply andb_true_iff in H. destruct H as [H1 H2]. unfold simple_ch at 1. rewrite H1, (IH H2). reflexivity.
+Qed.
+Lemma word_simple w : is_word w = true -> simple w /\ w <> [].
+Proof.
+  destruct w as [|a l]; [discriminate|]. intros H. split; [|discriminate]. apply letters_simple. exact H.
+Qed.
+Lemma word_letters w : is_word w = true -> forallb is_letter w = true.
+Proof. destruct w; [discriminate|]. intros H; exact H. Qed.
+
+Lemma join_cons w r : r <> [] -> join (w :: r) = w ++ Sp :: join r.
+Proof. destruct r; [congruence|reflexivity]. Qed.
+
+Lemma join_simple ws : words ws -> simple (join ws).
+Proof.
+  induction 1 as [|w r Hw Hr IH]; [reflexivity|].
+  destruct r as [|w2 r]; [exact (proj1 (word_simple w Hw))|].
+  rewrite join_cons by discriminate. apply simple_app. split; [exact (proj1 (word_simple w Hw))|].
+  apply simple_cons. split; [reflexivity|exact IH].
+Qed.
+
+Lemma join_length_cons w r : r <> [] -> length (join (w :: r)) = (length w + 1 + length (join r))%nat.
+Proof. intros H. rewrite join_cons by exact H. rewrite app_length. simpl. lia. Qed.
+
+Lemma wlen_0 ws : wlen ws 0 = O. Proof. reflexivity. Qed.
+Lemma wlen_1 w r : wlen (w :: r) 1 = length w. Proof. reflexivity. Qed.
+Lemma wlen_SS w w2 r k : wlen (w :: w2 :: r) (S (S k)) = (length w + 1 + wlen (w2 :: r) (S k))%nat.
+Proof. unfold wlen. cbn [firstn]. rewrite join_length_cons by discriminate. reflexivity. Qed.
+Lemma wlen_all ws : wlen ws (length ws) = length (join ws).
+Proof. unfold wlen. rewrite firstn_all. reflexivity. Qed.
+
+(* walking across letters produces no candidate *)
+Lemma cands_letters ins l : forall a R i acc, is_letter a = true -> forallb is_letter l = true ->
+  cands ins false a (l ++ R) i acc =
+  cands ins false (lastc a l) R (i + length l) (acc + Z.of_nat (length l)) /\ is_letter (lastc a l) = true.
+Proof.
+  induction l as [|b l IH]; intros a R i acc Ha Hl.
+  - cbn [app lastc length]. rewrite Nat.add_0_r, Z.add_0_r. split; [reflexivity|exact Ha].
+  - cbn [forallb] in Hl. apply andb_true_iff in Hl. destruct Hl as [Hb Hl].
+    cbn [app cands lastc length]. 
+    assert (Hbb : break_before false a b = false).
+    { unfold break_before. destruct a; try discriminate. reflexivity. }
+    rewrite Hbb. cbn [app]. destruct (IH b R (S i) (acc + vis b) Hb Hl) as [E1 E2]. rewrite E1. split; [|exact E2].
+    assert (vis b = 1) by (destruct b; try discriminate; reflexivity).
+    f_equal; lia.
+Qed.
+
+(* candidates of join ws, the text starting `off` characters into the line *)
+Fixpoint wcands (off : nat) (ws : list text) : list (nat * Z) :=
+  match ws with
+  | w :: ((_ :: _) as r) => ((off + length w + 1)%nat, Z.of_nat (off + length w)) :: wcands (off + length w + 1) r
+  | _ => []
+  end.
+
+Lemma wcands_cons2 off w w2 r :
+  wcands off (w :: w2 :: r) = ((off + length w + 1)%nat, Z.of_nat (off + length w)) :: wcands (off + length w + 1) (w2 :: r).
+Proof. reflexivity. Qed.
+
+Lemma cands_join ins ws : words ws -> forall off a l, ws <> [] -> hd [] ws = a :: l ->
+  cands ins false a (l ++ match tl ws with [] => [] | r => Sp :: join r end) (S off) (Z.of_nat (S off)) = wcands off ws.
+Proof.
+  induction 1 as [|w r Hw Hr IH]; intros off a l Hne Hhd; [congruence|].
+  cbn [hd] in Hhd. subst w. cbn [tl].
+  pose proof (word_letters _ Hw) as Hlet. cbn [forallb] in Hlet. apply andb_true_iff in Hlet. destruct Hlet as [Ha Hl].
+  destruct r as [|w2 r2].
+  - rewrite app_nil_r. destruct (cands_letters ins l a [] (S off) (Z.of_nat (S off)) Ha Hl) as [E _].
+    rewrite app_nil_r in E. rewrite E. reflexivity.
+  - destruct (cands_letters ins l a (Sp :: join (w2 :: r2)) (S off) (Z.of_nat (S off)) Ha Hl) as [E Hx]. rewrite E.
+    inversion Hr as [|? ? Hw2 Hr2]; subst.
+    destruct w2 as [|b l2]; [discriminate|].
+    assert (Hj : join ((b :: l2) :: r2) = b :: (l2 ++ match r2 with [] => [] | r => Sp :: join r end)).
+    { destruct r2; [cbn [join]; rewrite app_nil_r; reflexivity|reflexivity]. }
+    unfold text in *. rewrite Hj. set (x := lastc a l) in *.
+    cbn [cands]. 
+    assert (Hb1 : break_before false x Sp = false) by (unfold break_before; destruct x; try discriminate; reflexivity).
+    rewrite Hb1. cbn [app].
+    pose proof (word_letters _ Hw2) as Hlet2. cbn [forallb] in Hlet2. apply andb_true_iff in Hlet2. destruct Hlet2 as [Hb _].
+    assert (Hb2 : break_before false Sp b = true) by (unfold break_before; destruct b; try discriminate; reflexivity).
+    rewrite Hb2. cbn [app]. rewrite wcands_cons2. cbn [length].
+    unfold cost_at. cbn [is_sp vis].
+    specialize (IH (off + S (length l) + 1)%nat b l2 ltac:(discriminate) eq_refl). cbn [tl] in IH.
+    f_equal.
+    + f_equal; lia.
+    + replace (S (S (S off + length l))) with (S (off + S (length l) + 1)) by lia.
+      replace (Z.of_nat (S off) + Z.of_nat (length l) + 1 + vis b) with (Z.of_nat (S (off + S (length l) + 1))).
+      * destruct r2; exact IH.
+      * assert (vis b = 1) by (destruct b; try discriminate; reflexivity). lia.
+Qed.
+
+Lemma wcands_seq ws : forall off,
+  wcands off ws = map (fun k => ((off + wlen ws k + 1)%nat, Z.of_nat (off + wlen ws k))) (seq 1 (length ws - 1)).
+Proof.
+  induction ws as [|w r IH]; intros off; [reflexivity|].
+  destruct r as [|w2 r2]; [reflexivity|].
+  rewrite wcands_cons2. cbn [length]. replace (S (S (length r2)) - 1)%nat with (S (length r2)) by lia.
+  cbn [seq map]. rewrite wlen_1. f_equal.
+  rewrite IH. cbn [length]. replace (S (length r2) - 1)%nat with (length r2) by lia.
+  rewrite <- (seq_shift (length r2) 1), map_map. apply map_ext_in. intros k Hk. apply in_seq in Hk.
+  destruct k as [|k]; [lia|]. rewrite wlen_SS. f_equal; [lia|]. f_equal. lia.
+Qed.
+
+Section PickSeq.
+  Variable fs w : Q.
+  Variable f : nat -> nat * Z.
+  Let fitsk k := fits fs w (snd (f k)) = true.
+  Hypothesis mono : forall k, fitsk (S k) -> fitsk k.
+
+  Lemma pick_seq m : forall s best, (1 <= s)%nat ->
+    (s = 1%nat -> best = None) -> ((1 < s)%nat -> best = Some (f (s - 1)) /\ fitsk (s - 1)) ->
+    (m = O /\ pick fs w best (map f (seq s m)) = best) \/
+    exists k, pick fs w best (map f (seq s m)) = Some (f k) /\ (1 <= k)%nat /\ (s - 1 <= k <= s + m - 1)%nat /\
+              ((k + 1 <= s + m - 1)%nat -> ~ fitsk (k + 1)) /\ ((2 <= k)%nat -> fitsk k).
+  Proof.
+    induction m as [|m IH]; intros s best Hs H1 H2; [left; split; reflexivity|].
+    right. cbn [seq map pick]. destruct (f s) as [i c] eqn:Ef.
+    destruct (fits fs w c) eqn:Efit.
+    - assert (Hfs : fitsk s) by (unfold fitsk; rewrite Ef; exact Efit).
+      destruct (IH (S s) (Some (i, c)) ltac:(lia) ltac:(lia)) as [[Hm Hp]|[k (Hp & Hk1 & Hk2 & Hk3 & Hk4)]].
+      + intros _. replace (S s - 1)%nat with s by lia. rewrite Ef. split; [reflexivity|exact Hfs].
+      + exists s. rewrite Hp, <- Ef. subst m. repeat split; try lia. intros _. exact Hfs.
+      + exists k. rewrite Hp. repeat split; try lia; try assumption. intros Hle. apply Hk3. lia.
+    - assert (Hnf : ~ fitsk s) by (unfold fitsk; rewrite Ef; cbn [snd]; congruence).
+      destruct (Nat.eq_dec s 1) as [->|Hne].
+      + rewrite (H1 eq_refl). exists 1%nat. rewrite Ef. repeat split; try lia.
+        intros _ Hf2. apply Hnf. apply mono. exact Hf2.
+      + destruct (H2 ltac:(lia)) as [Hb Hfb]. rewrite Hb. exists (s - 1)%nat. repeat split; try lia.
+        * intros _. replace (s - 1 + 1)%nat with s by lia. exact Hnf.
+        * intros _. exact Hfb.
+  Qed.
+End PickSeq.
+
+Lemma last_ch_app (u v : text) : v <> [] -> last_ch (u ++ v) = last_ch v.
+Proof.
+  induction u as [|c u IHu]; intros Hv; [reflexivity|]. cbn [app last_ch]. rewrite <- (IHu Hv).
+  destruct (u ++ v) eqn:E; [destruct u; [simpl in E; congruence|discriminate]|reflexivity].
+Qed.
+Lemma join_nonempty ws : words ws -> ws <> [] -> join ws <> [].
+Proof.
+  intros H Hne. destruct H as [|w r Hw Hr]; [congruence|].
+  destruct w as [|a l]; [discriminate|]. destruct r; discriminate.
+Qed.
+Lemma join_last_letter ws : words ws -> ws <> [] -> ends_with is_sp (join ws) = false.
+Proof.
+  induction 1 as [|w r Hw Hr IH]; intros Hne; [congruence|].
+  destruct r as [|w2 r2].
+  - cbn [join]. destruct w as [|a l]; [discriminate|]. rewrite ends_with_lastc.
+    pose proof (word_letters _ Hw) as Hl. cbn [forallb] in Hl. apply andb_true_iff in Hl. destruct Hl as [Ha Hl].
+    destruct (cands_letters false l a [] O 0 Ha Hl) as [_ Hx]. destruct (lastc a l); try discriminate; reflexivity.
+  - rewrite join_cons by discriminate. specialize (IH ltac:(discriminate)).
+    pose proof (join_nonempty (w2 :: r2) Hr ltac:(discriminate)) as Hj.
+    unfold ends_with in *. rewrite last_ch_app by discriminate.
+    destruct (join (w2 :: r2)) as [|c t] eqn:E; [congruence|].
+    change (last_ch (Sp :: c :: t)) with (last_ch (c :: t)). exact IH.
+Qed.
+
+Lemma wlen_mono ws : forall k, (wlen ws k <= wlen ws (S k))%nat.
+Proof.
+  induction ws as [|w r IH]; intros k; [unfold wlen; destruct k; simpl; lia|].
+  destruct k as [|k]; [rewrite wlen_0; lia|].
+  destruct r as [|w2 r2].
+  - unfold wlen. cbn [firstn]. destruct k; simpl; lia.
+  - destruct k as [|k].
+    + rewrite wlen_1, wlen_SS. lia.
+    + rewrite (wlen_SS w w2 r2 k), (wlen_SS w w2 r2 (S k)). specialize (IH (S k)). lia.
+Qed.
+
+Lemma fits_true_mono fs w c1 c2 : (0 <= fs)%Q -> c1 <= c2 -> fits fs w c2 = true -> fits fs w c1 = true.
+Proof.
+  intros Hfs Hc H. destruct (fits fs w c1) eqn:E; [reflexivity|].
+  rewrite (fits_mono fs w c1 c2 Hfs Hc E) in H. discriminate.
+Qed.
+
+Lemma fits_chars_iff fs w n : fits fs w (Z.of_nat n) = true <-> fits_chars fs w n.
+Proof. unfold fits, fits_chars. apply Qle_bool_iff. Qed.
+
+(* G on a list of words is the greedy choice: k words are taken, the k+1 first words do not fit, and the k first
+   words fit unless k = 1 *)
+Theorem G_words fs ins ws w :
+  (0 <= fs)%Q -> words ws -> ws <> [] ->
+  let n := length ws in let t := join ws in
+  exists k, (1 <= k <= n)%nat /\
+    ((2 <= k)%nat -> fits_chars fs w (wlen ws k)) /\
+    ((k < n)%nat -> ~ fits_chars fs w (wlen ws (k + 1))) /\
+    G fs ins t (Some w) false =
+      if (k =? n)%nat then (length t, None, (inject_Z (Z.of_nat (length t)) * fs)%Q)
+      else ((wlen ws k + 1)%nat, Some (wlen ws k + 1)%nat, (inject_Z (Z.of_nat (wlen ws k)) * fs)%Q).
+Proof.
+  intros Hfs Hw Hne n t.
+  assert (Ht : simple t) by (apply join_simple; exact Hw).
+  assert (Hn : (1 <= n)%nat) by (unfold n; destruct ws; [congruence|simpl; lia]).
+  pose proof (join_last_letter ws Hw Hne) as Hlast. fold t in Hlast.
+  unfold G. rewrite (para_simple t Ht), (has_nl_simple t Ht), Hlast.
+  rewrite (visw_simple t Ht).
+  assert (Hlen : length t = wlen ws n) by (unfold t, n; symmetry; apply wlen_all).
+  destruct (fits fs w (Z.of_nat (length t))) eqn:Efit.
+  - exists n. rewrite Nat.eqb_refl. repeat split; try lia.
+    intros _. apply fits_chars_iff. rewrite <- Hlen. exact Efit.
+  - destruct t as [|a rest] eqn:Et; [exfalso; exact (join_nonempty ws Hw Hne Et)|].
+    rewrite scan_pick.
+    assert (Hc : cands ins false a rest 1 (vis a) = wcands 0 ws).
+    { destruct ws as [|w1 r]; [congruence|].
+      assert (Hw1 : exists l, w1 = a :: l /\ rest = l ++ match r with [] => [] | r => Sp :: join r end).
+      { destruct w1 as [|a' l]; [inversion Hw; discriminate|].
+        destruct r as [|w2 r2]; cbn [join] in Et.
+        - injection Et as Ea El. exists l. rewrite app_nil_r. split; congruence.
+        - cbn [app] in Et. injection Et as Ea El. exists l. split; [congruence|]. rewrite <- El. destruct r2; reflexivity. }
+      destruct Hw1 as (l & -> & ->).
+      pose proof (cands_join ins ((a :: l) :: r) Hw O a l ltac:(discriminate) eq_refl) as Hcj. cbn [tl] in Hcj.
+      assert (Hva : vis a = 1).
+      { inversion Hw as [|? ? Hwa _]; subst. pose proof (word_letters _ Hwa) as Hl. cbn [forallb] in Hl.
+        apply andb_true_iff in Hl. destruct (proj1 Hl). destruct a; try discriminate; reflexivity. }
+      rewrite Hva. destruct r; exact Hcj. }
+    rewrite Hc, (wcands_seq ws 0).
+    set (f := fun k : nat => ((0 + wlen ws k + 1)%nat, Z.of_nat (0 + wlen ws k))).
+    assert (Hmono : forall k, fits fs w (snd (f (S k))) = true -> fits fs w (snd (f k)) = true).
+    { intros k. unfold f. cbn [snd]. apply fits_true_mono; [exact Hfs|]. pose proof (wlen_mono ws k). lia. }
+    destruct (pick_seq fs w f Hmono (length ws - 1) 1 None ltac:(lia) ltac:(reflexivity) ltac:(lia))
+      as [[Hm Hp]|[k (Hp & Hk1 & Hk2 & Hk3 & Hk4)]].
+    + rewrite Hp. exists n. rewrite Nat.eqb_refl. fold n in Hm. repeat split; try lia.
+    + rewrite Hp. fold n in Hk2, Hk3. exists k. assert (Hkn : (k < n)%nat) by lia.
+      destruct (k =? n)%nat eqn:Ek; [apply Nat.eqb_eq in Ek; lia|].
+      unfold f. cbn [snd fst]. rewrite !Nat.add_0_l. repeat split; try lia.
+      * intros H2. apply fits_chars_iff. specialize (Hk4 H2). unfold f in Hk4. cbn [snd] in Hk4.
+        rewrite Nat.add_0_l in Hk4. exact Hk4.
+      * intros _ Hf. apply fits_chars_iff in Hf.
+        destruct (Nat.eq_dec (k + 1) n) as [E|E].
+        -- rewrite E, <- Hlen in Hf. rewrite Hf in Efit. discriminate.
+        -- apply (Hk3 ltac:(lia)). unfold f. cbn [snd]. rewrite Nat.add_0_l. exact Hf.
+Qed.
